@@ -44,28 +44,40 @@ Proof. exact into_NeedEnding. Qed.
 Print Assumptions C15_run_ending_after_run_ok.
 
 (** --- engine level (Engine: persisted task and instance statuses, the parser's tree and event queue, the
-    executor's registered runs and the deliveries under way, the retry command in its phases, crash and
-    restart, the watchdog - one instance as a transition system at the granularity of single store writes
-    and goroutine hand-overs; scope: tasks without pre-checks, failures in every phase, retry commands
-    also while the instance is busy, no-op commands).  The statements hold for every history in which no
-    delivery is accepted with a stale snapshot ([validate = true], the other switches arbitrary); the code
-    as it is admits such a delivery after a retry command re-initialised a busy instance, and then every
-    one of them fails ([..._unvalidated_refuted]; known finding F-dup-push, reproduced on the real code).
-    Journals of the real engine in this scope are checked to be histories of Engine
-    ([EngineCheck.check_core]) and the hypothesis is monitored on them. --- *)
+    pushes in progress with their pre-check verdicts, the executor's registered runs and the deliveries
+    under way, the retry and continue commands in their phases, crash and restart, the watchdog - one
+    instance as a transition system at the granularity of single store writes and goroutine hand-overs;
+    scope: pre-checks (skip / block), failures in every phase, retry and continue commands also while the
+    instance is busy, no-op commands; not: cancel, failing writes).  The statements hold for every history
+    in which no delivery is accepted, and no pre-check verdict written, on the strength of a stale snapshot
+    or next to another delivery of the same task ([validate = true], the other switches arbitrary); the code
+    as it is admits both after a retry command re-initialised a busy instance, and then every one of them
+    fails ([..._refuted]; known finding F-dup-push, reproduced on the real code).  Journals of the real
+    engine in this scope are checked to be histories of Engine ([EngineCheck.check_core]) and the hypothesis
+    is monitored on them. --- *)
 
-Theorem C15_engine_success_final : forall tasks deps cq nn ls s l s' t,
+(** a finished task (success or skipped) is never given another status *)
+Theorem C15_engine_finished_final : forall tasks deps cq nn ls s l s' t,
   run tasks deps true cq nn boot ls = Some s -> step tasks deps true cq nn s l = Some s' ->
-  Engine.store s t = SSuccess -> Engine.store s' t = SSuccess.
+  done (Engine.store s t) = true -> Engine.store s' t = Engine.store s t.
 Proof.
   intros tasks deps cq nn ls s l s' t Hr Hs.
-  exact (success_final tasks deps cq nn s l s' t (inv_reach tasks deps cq nn ls boot s (inv_boot deps) Hr) Hs).
+  exact (done_final tasks deps cq nn s l s' t (inv_reach tasks deps cq nn ls boot s (inv_boot deps) Hr) Hs).
 Qed.
-Print Assumptions C15_engine_success_final.
+Print Assumptions C15_engine_finished_final.
 
 Theorem C15_engine_unvalidated_refuted :
-  exists s s', run [1; 2; 3]%Z deps3 false false true boot (firstn 20 witness_dup) = Some s /\
+  exists s s', run [1; 2; 3]%Z deps3 false false true boot (firstn 24 witness_dup) = Some s /\
                step [1; 2; 3]%Z deps3 false false true s (StartWrite 2) = Some s' /\
                Engine.store s 2 = SSuccess /\ Engine.store s' 2 = SRunning.
 Proof. exact success_overwritten_refuted. Qed.
 Print Assumptions C15_engine_unvalidated_refuted.
+
+(** the same with a pre-check: a duplicate push records 'skipped' next to a delivery that is already registered;
+    the registered run then overwrites it with 'running' *)
+Theorem C15_engine_skipped_overwritten_refuted :
+  exists s s', run [1; 2; 3]%Z deps3 false false true boot witness_dup_skip = Some s /\
+               step [1; 2; 3]%Z deps3 false false true s (StartWrite 2) = Some s' /\
+               Engine.store s 2 = SSkipped /\ Engine.store s' 2 = SRunning.
+Proof. exact skipped_overwritten_refuted. Qed.
+Print Assumptions C15_engine_skipped_overwritten_refuted.
